@@ -139,13 +139,24 @@ package annotation
 //@   modifies *
 //@   assert at "elems, err := getElements(ctx, tk)": heldw("d.RWMutex")
 
+// MoveElement (C13): after the block store has been updated, the move is carried through ALL three
+// denormalisations - the per-body index, the per-tag index and the references held by partner elements
+// (wherever those partners are stored) - before the second batch is committed, whether or not the
+// element changed block.
 //@ func Data.MoveElement
-//@   prop C11
+//@   prop C11 C13
 //@   requires d != nil
 //@   safety_off
 //@   calls_havoc
 //@   modifies *
 //@   assert at "fromElems, err := getElements(ctx, fromTk)": heldw("d.RWMutex")
+//@   ghost inLabels bool = false
+//@   ghost inTags bool = false
+//@   ghost inRels bool = false
+//@   ghostset at "if err := d.moveElementInLabels(ctx, batch, from, to, moved.ElementNR); err != nil {": inLabels = true
+//@   ghostset at "if err := d.moveElementInTags(ctx, batch, from, to, moved.Tags); err != nil {": inTags = true
+//@   ghostset at "if err := d.moveElementInRelationships(ctx, batch, from, to, moved.Rels); err != nil {": inRels = true
+//@   assert at "return batch.Commit()": inLabels && inTags && inRels
 
 //@ func Data.StoreElements
 //@   prop C11
@@ -202,6 +213,9 @@ package annotation
 //@   assert at "if elemsAdded > 0 {": skipped == 0
 //@   assert at "batch.Put(targetTk, val)": len(targetElems) == n0 + elemsAdded && elemsAdded > 0
 //@   assert at "if err := batch.Commit(); err != nil {": put
+//@   ghost examined bool = false
+//@   ghostset at "if elemsAdded > 0 {": examined = true
+//@   ensures result == nil ==> examined
 
 // moveElementInLabels (C13, per-body index follows a move): the moved element is removed from the
 // index of the body it sat on (when that is not background) and added to the index of the body it now
